@@ -23,7 +23,7 @@ Lemma exchange_sound ops h s : exec H cf ops = (h, s) ->
     /\ find_req (e_pre e) (q_id q) = Some q /\ q_done q = true
     /\ (exists elog, In elog h1 /\ e_op elog = Login (q_id q) (q_sub q) (q_auth q) /\ e_out elog = OLogin true)
     /\ (exists eau, In eau h1
-          /\ e_op eau = Authorize (q_client q) (q_uri q) (q_scopes q) (q_nonce q) (q_chal q)
+          /\ e_op eau = Authorize (q_client q) (q_uri q) (q_scopes q) (q_nonce q) (q_chal q) (q_extra q)
           /\ e_out eau = OAuthz (Some (q_id q)))
     /\ cred_proves cf cr (q_client q) = true
     /\ uri = q_uri q
@@ -122,7 +122,7 @@ Definition ex_cfg : cfg :=
                      c_code := true; c_refresh := true; c_jwt := true |} ] |}.
 Definition ex_H (v : string) : string := "H(" ++ v ++ ")".
 Definition ex_ops : list (router * op) :=
-  [ (Legacy, Authorize "web" "https://web/cb" ["openid"; "offline_access"; "email"] "n-1" (Some (true, "H(v1)")));
+  [ (Legacy, Authorize "web" "https://web/cb" ["openid"; "offline_access"; "email"] "n-1" (Some (true, "H(v1)")) no_extra);
     (Legacy, Callback 1);                                             (* not done: no code *)
     (Legacy, Login 1 "alice" 7);
     (Provider, Callback 1);
@@ -135,7 +135,7 @@ Definition ex_ops : list (router * op) :=
     (Legacy, TokenRefresh P_body (Basic "web" "s3cret") (Some 2) []);                     (* rotated *)
     (Legacy, TokenRefresh P_body (Basic "web" "s3cret") (Some 4) ["openid"]);
     (* second flow: a storage failure while the redeemed request is removed, then the same code again *)
-    (Provider, Authorize "web" "https://web/cb" ["openid"] "n-2" None);
+    (Provider, Authorize "web" "https://web/cb" ["openid"] "n-2" None no_extra);
     (Provider, Login 8 "bob" 9);
     (Provider, Callback 8);
     (Provider, TokenCode P_field_conflict (Some SM_DeleteAuthRequest) (Basic "web" "s3cret") (Some 2) "https://web/cb" "");
@@ -143,12 +143,16 @@ Definition ex_ops : list (router * op) :=
     (Legacy, TokenCode P_body None (Basic "web" "s3cret") (Some 2) "https://web/cb" "");
     (* the refresh grant is withdrawn from the registration; grant_type travels in the query string *)
     (Legacy, DropRefresh "web");
-    (Legacy, TokenRefresh P_grant_query (Basic "web" "s3cret") (Some 6) []) ].
+    (Legacy, TokenRefresh P_grant_query (Basic "web" "s3cret") (Some 6) []);
+    (* an id_token_hint gives the request a subject, not a login: the callback yields no code *)
+    (Provider, Authorize "web" "https://web/cb" ["openid"] "n-3" None {| x_hint := Some (Some "alice"); x_prompt := ["login"] |});
+    (Legacy, Callback 10);
+    (Legacy, Authorize "web" "https://web/cb" ["openid"] "n-4" None {| x_hint := None; x_prompt := ["none"] |}) ].
 
 Example history_nonvacuous :
   map is_tokens (outs ex_H ex_cfg ex_ops)
   = [false; false; false; false; false; false; true; false; false; true; false; true;
-     false; false; false; false; true; false; false; false]
+     false; false; false; false; true; false; false; false; false; false; false]
   /\ nth_error (outs ex_H ex_cfg ex_ops) 1 = Some OCbErr
   /\ nth_error (outs ex_H ex_cfg ex_ops) 4 = Some (OErr 4 E_grant)
   /\ nth_error (outs ex_H ex_cfg ex_ops) 5 = Some (OErr 4 E_request)
@@ -156,5 +160,8 @@ Example history_nonvacuous :
   /\ nth_error (outs ex_H ex_cfg ex_ops) 10 = Some (OErr 4 E_grant)
   /\ nth_error (outs ex_H ex_cfg ex_ops) 15 = Some (OErr 4 E_server)
   /\ nth_error (outs ex_H ex_cfg ex_ops) 17 = Some (OErr 4 E_grant)
-  /\ nth_error (outs ex_H ex_cfg ex_ops) 19 = Some (OErr 4 E_unauthorized).
+  /\ nth_error (outs ex_H ex_cfg ex_ops) 19 = Some (OErr 4 E_unauthorized)
+  /\ nth_error (outs ex_H ex_cfg ex_ops) 20 = Some (OAuthz (Some 10))
+  /\ nth_error (outs ex_H ex_cfg ex_ops) 21 = Some OCbErr
+  /\ nth_error (outs ex_H ex_cfg ex_ops) 22 = Some (OAuthz None).
 Proof. vm_compute. repeat split. Qed.
